@@ -87,7 +87,7 @@ def buildCol : List NameRow → List (Option Obj) → Md → Except Status Md
 
 theorem reads_column (c : Cfg) (rows : List NameRow) (col : List (Option Obj)) (m m' : Md)
     (hlen : col.length = rows.length)
-    (hok : ∀ i (hi : i < rows.length) (hj : i < col.length) x, col[i] = some x → MdObjOk c x ∧ x.tid = rows[i].vt)
+    (hok : ∀ q ∈ rows.zip col, ∀ x, q.2 = some x → MdObjOk c x ∧ x.tid = q.1.vt)
     (hb : buildCol rows col m = .ok m') :
     Reads (readColumn c rows m) (col.flatMap (optObj c)) m' := by
   induction rows generalizing col m with
@@ -101,13 +101,10 @@ theorem reads_column (c : Cfg) (rows : List NameRow) (col : List (Option Obj)) (
     | cons o os =>
       simp only [List.length_cons, Nat.add_right_cancel_iff] at hlen
       simp only [readColumn, List.flatMap_cons, P.bind_def]
-      have ho := hok 0 (by simp) (by simp)
-      simp only [List.getElem_cons_zero] at ho
+      have ho := hok (r, o) (by simp)
       refine Reads.bind (reads_optObj c r.vt false o (fun x hx => ho x hx)) ?_
-      have hok' : ∀ i (hi : i < rs.length) (hj : i < os.length) x, os[i] = some x → MdObjOk c x ∧ x.tid = rs[i].vt := by
-        intro i hi hj x hx
-        have := hok (i + 1) (by simp; omega) (by simp; omega) x (by simpa using hx)
-        simpa using this
+      have hok' : ∀ q ∈ rs.zip os, ∀ x, q.2 = some x → MdObjOk c x ∧ x.tid = q.1.vt := by
+        intro q hq x hx; exact hok q (by simp [hq]) x hx
       cases o with
       | none =>
         simp only [buildCol] at hb
@@ -120,6 +117,24 @@ theorem reads_column (c : Cfg) (rows : List NameRow) (col : List (Option Obj)) (
           simp only [ha] at hb ⊢
           exact ih os m1 hlen hok' hb
 
+/-- pointwise relation between two lists of the same length -/
+inductive All2 {α β : Type} (R : α → β → Prop) : List α → List β → Prop
+  | nil : All2 R [] []
+  | cons {a : α} {b : β} {as : List α} {bs : List β} : R a b → All2 R as bs → All2 R (a :: as) (b :: bs)
+
+theorem All2.length_eq {α β : Type} {R : α → β → Prop} {as : List α} {bs : List β} (h : All2 R as bs) :
+    as.length = bs.length := by
+  induction h with
+  | nil => rfl
+  | cons _ _ ih => simp [ih]
+
+/-- one column of a well-formed physical table metadata section, and the metadata the reader
+    builds for it -/
+def ColOk (c : Cfg) (names : List NameRow) (pc : List (Option Obj)) (m : Md) : Prop :=
+  pc.length = names.length ∧
+  (∀ q ∈ names.zip pc, ∀ x, q.2 = some x → MdObjOk c x ∧ x.tid = q.1.vt) ∧
+  buildCol names pc Md.empty = .ok m
+
 /-- a well-formed physical table metadata section -/
 structure Spec.PhysTM.Ok (c : Cfg) (p : PhysTM) (cols : List Md) : Prop where
   table : ∀ e ∈ p.table, TableEntryOk c e
@@ -127,37 +142,21 @@ structure Spec.PhysTM.Ok (c : Cfg) (p : PhysTM) (cols : List Md) : Prop where
   tcnt : (p.table.length : Int) ≤ INT_MAX
   ccnt : (p.cols.length : Int) * 8 ≤ c.cap ∧ (p.cols.length : Int) ≤ INT_MAX
   ncnt : (p.names.length : Int) * 8 ≤ c.cap ∧ (p.names.length : Int) ≤ INT_MAX
-  clen : cols.length = p.cols.length
-  col : ∀ i (hi : i < p.cols.length) (hj : i < cols.length),
-    p.cols[i].length = p.names.length ∧
-    (∀ j (hj1 : j < p.names.length) (hj2 : j < p.cols[i].length) x, p.cols[i][j] = some x → MdObjOk c x ∧ x.tid = p.names[j].vt) ∧
-    buildCol p.names p.cols[i] Md.empty = .ok cols[i]
+  col : All2 (ColOk c p.names) p.cols cols
+
+theorem Spec.PhysTM.Ok.clen {c : Cfg} {p : PhysTM} {cols : List Md} (h : p.Ok c cols) : cols.length = p.cols.length :=
+  h.col.length_eq.symm
 
 theorem reads_columns (c : Cfg) (rows : List NameRow) (pc : List (List (Option Obj))) (cols : List Md)
-    (hlen : cols.length = pc.length)
-    (h : ∀ i (hi : i < pc.length) (hj : i < cols.length),
-      pc[i].length = rows.length ∧
-      (∀ j (hj1 : j < rows.length) (hj2 : j < pc[i].length) x, pc[i][j] = some x → MdObjOk c x ∧ x.tid = rows[j].vt) ∧
-      buildCol rows pc[i] Md.empty = .ok cols[i]) :
+    (h : All2 (ColOk c rows) pc cols) :
     Reads (readMany pc.length (readColumn c rows Md.empty)) (pc.flatMap (fun col => col.flatMap (optObj c))) cols := by
-  induction pc generalizing cols with
-  | nil =>
-    have : cols = [] := List.length_eq_zero_iff.mp (by simpa using hlen)
-    subst this; exact Reads.pure _
-  | cons x xs ih =>
-    cases cols with
-    | nil => simp at hlen
-    | cons m ms =>
-      simp only [List.length_cons, Nat.add_right_cancel_iff] at hlen
-      simp only [List.length_cons, readMany, List.flatMap_cons, P.bind_def]
-      have h0 := h 0 (by simp) (by simp)
-      simp only [List.getElem_cons_zero] at h0
-      refine Reads.bind (reads_column c rows x Md.empty m h0.1 h0.2.1 h0.2.2) ?_
-      have := Reads.bind (ih ms hlen (by
-        intro i hi hj
-        have := h (i + 1) (by simp; omega) (by simp; omega)
-        simpa using this)) (f := fun as => P.pure (m :: as)) (Reads.pure _)
-      simpa using this
+  induction h with
+  | nil => exact Reads.pure _
+  | @cons x m xs ms hx _ ih =>
+    simp only [List.length_cons, readMany, List.flatMap_cons, P.bind_def]
+    refine Reads.bind (reads_column c rows x Md.empty m hx.1 hx.2.1 hx.2.2) ?_
+    have := Reads.bind ih (f := fun as => P.pure (m :: as)) (Reads.pure _)
+    simpa using this
 
 /-- `sbdf_tm_read` decodes every well-formed physical table-metadata section: the table entries in
     order, and per column the present values under their names, in name-list order, frozen -/
@@ -183,7 +182,7 @@ theorem reads_tm (c : Cfg) (p : PhysTM) (cols : List Md) (h : p.Ok c cols) :
   refine Reads.nil_bind (a := ()) (Reads.allocOk c _ (by omega) h.ncnt.1) ?_
   have hrows := Reads.many (p := readNameRow c) (enc := nameRow c) p.names (fun r hr => reads_nameRow c r (h.names r hr))
   refine Reads.bind hrows ?_
-  have hcols := reads_columns c p.names p.cols cols h.clen h.col
+  have hcols := reads_columns c p.names p.cols cols h.col
   have := Reads.bind hcols
     (f := fun cs => P.pure (⟨⟨p.table.map (fun e => (⟨e.1, some e.2.1, e.2.2⟩ : MdEntry)), false⟩, cs.map Md.freeze⟩ : TM))
     (Reads.pure _)
